@@ -53,6 +53,8 @@ func allSystems() []core.System {
 		NewSubSys(3, "idle"),
 		NewDHCPNexusSys([]string{"direct", "relay"}, "10.0.0.0/29", 8),
 		NewDHCPNexusSys([]string{"relay", "direct", "relay"}, "10.3.0.16/28", 16),
+		NewDHCPQosSys([]string{"direct", "relay"}, "10.0.0.0/29", 8, 1),
+		NewDHCPQosSys([]string{"relay", "direct", "direct"}, "10.3.0.16/28", 16, 1),
 	}
 }
 
@@ -77,11 +79,11 @@ func TestExplore(t *testing.T) {
 	tier, seed := core.Tier(), core.Seed()
 	all := allSystems()
 	only := os.Getenv("VERIF_ONLY") // debugging aid: restrict to systems whose name has this prefix
-	plans := []plan{{all[0], 7, 1500}, {all[1], 6, 800}, {all[3], 7, 2000}, {all[5], 8, 1500}, {all[7], 8, 1500}, {all[8], 7, 800}, {all[10], 6, 800}}
-	chainSys := []core.System{all[2], all[4], all[6], all[9], all[11]}
+	plans := []plan{{all[0], 7, 1500}, {all[1], 6, 800}, {all[3], 7, 2000}, {all[5], 8, 1500}, {all[7], 8, 1500}, {all[8], 7, 800}, {all[10], 6, 800}, {all[12], 6, 600}}
+	chainSys := []core.System{all[2], all[4], all[6], all[9], all[11], all[13]}
 	nchains, chainLen := 12, 100
 	if tier == "thorough" {
-		plans = []plan{{all[0], 9, 12000}, {all[1], 8, 6000}, {all[3], 9, 15000}, {all[5], 10, 12000}, {all[7], 10, 12000}, {all[8], 9, 6000}, {all[10], 8, 6000}}
+		plans = []plan{{all[0], 9, 12000}, {all[1], 8, 6000}, {all[3], 9, 15000}, {all[5], 10, 12000}, {all[7], 10, 12000}, {all[8], 9, 6000}, {all[10], 8, 6000}, {all[12], 8, 5000}}
 		nchains, chainLen = 100, 200
 	}
 	bundle := &core.Bundle{}
